@@ -32,7 +32,7 @@ CHECKS = {
  "C06": (X, "structure-aware fuzzing: exhaustive single / strided pairwise boundary-value substitution into every field of reference-encoded and canned files, box-tree surgery, prefixes and proptest havoc, also consistent inflation of counts with ancestor sizes, a mutated box twice in a row, amplification (over-reading trak/traf x 200-400), 60 000 boxes nested in one another inside every container, stz2 in place of stsz, 100 000-entry tables, valid structures with unusual content, and the stand-alone box decoders with their renderings, through an API driver with a panic/abort oracle in two build profiles",
          "Every generated input is opened (as file, as fragment against two init segments, with segments against it) and every read-side call is made under catch_unwind in a wrapping and an overflow-checked build; process death is attributed to the case and re-confirmed in a fresh process. Search, not proof: absence is shown only for the explored inputs.",
          "trusts the reference encoder for seed files and the field map; mutated inputs <= ~6 KiB; scale stages up to ~1 MiB", "DESIGN.md 4/C06"),
- "C07": (X, "structure-aware fuzzing focused on size/count/offset fields with a deterministic resource oracle (operation-counting stream with hard budget, thread CPU time absolute and relative to an ordered-table baseline of the same length, supervisor stall detection)",
+ "C07": (X, "structure-aware fuzzing focused on size/count/offset fields with a deterministic resource oracle (operation-counting stream with hard budget, thread CPU time absolute and relative to an ordered-table baseline of the same length, supervisor stall detection); incl. an 'offset-overflow' stage (chunk offset, samples-per-chunk, count and size raised together)",
          "Each call's stream operations and bytes are counted against 24*n + 65536 (open) / 64 + (n + sample size)/64 (later calls); a non-advancing loop exhausts the budget and is reported deterministically; CPU blow-ups (> 1 s per call, normal: microseconds) are confirmed by a second execution; hangs without I/O are killed by the supervisor and re-confirmed alone.",
          "CPU linearity only as a blow-up detector; bounds 20x above the measured maximum of 3 operations per input byte", "DESIGN.md 4/C07"),
  "C08": (X, "structure-aware fuzzing focused on count/length/size fields with a counting global allocator as oracle",
@@ -47,10 +47,10 @@ CHECKS = {
  "C11": (F, "crash-point enumeration: every prefix length of files in every layout, compared with the complete file's samples",
          "Every cut position 0..len of every subject file (and media segment against its intact init) is opened with the prefix's own length; a successful open must return, for every sample id of the complete file, an error, None beyond its own count, or exactly the complete file's sample. Panics and budget exhaustion (hangs) are violations.",
          "baseline = library's reading of the complete file", "DESIGN.md 4/C11"),
- "C12": (X, "metamorphic property-based testing: logical movie x layout transformations (exhaustive single transformations over all sites of the rendered box tree, random combinations), equality with the base and with the builder's ground truth of the variant",
+ "C12": (X, "metamorphic property-based testing: logical movie x layout transformations (exhaustive single transformations over all sites of the rendered box tree, random combinations), equality with the base and with the builder's ground truth of the variant; 32- vs 64-bit header of a box inserted into non-iterating containers must be treated alike",
          "Variants that differ only in physical layout (inserted free/unknown boxes incl. 64-bit headers, sibling order, 64-bit size headers, spare bytes) must open to the same tracks, accessor values, metadata and samples; sample offsets must equal the reference encoder's truth for the variant.",
          "sites restricted to what the statement names; trusts the reference encoder", "DESIGN.md 4/C12"),
- "C13": (X, "boundary-value property-based testing on a sparse stream: generated histories whose start position, cumulative payload and durations land just below/at/above 2^32; independent parser + read-back oracle",
+ "C13": (X, "boundary-value property-based testing on a sparse stream: generated histories whose start position, cumulative payload and durations land just below/at/above 2^32, under eight major brands; independent parser + read-back oracle",
          "Muxer and reader share a run-length-encoded sparse stream so real > 4 GiB outputs are produced and read back; the harness' parser checks that each 64-bit form (largesize mdat, co64, version 1) is used whenever the value exceeds 32 bits and that every stored value is exact.",
          "single samples <= 64 MiB; uniform fill bytes per sample", "DESIGN.md 4/C13"),
  "C14": (X, "property-based testing: full enumeration of the AAC enum product and AVC profile/compat bytes + proptest random configurations, accessor-vs-configuration oracle",
@@ -59,10 +59,10 @@ CHECKS = {
  "C15": (X, "stateful property-based testing: generated call schedules on one reader vs single calls on fresh readers; repeated mux/parse runs compared",
          "Each call of a generated schedule (samples, offsets, counts, accessors; valid, missing and out-of-range ids; repeats) must return what a fresh reader returns for that single call; the same history muxed twice (second time on another thread) must give identical bytes - also with a real pause before a generated call - and the same bytes opened twice equal structures; a soak of 260 000 repetitions of one call and canary boxes decoded throughout the run guard against state outside the readers; and JSON.",
          "results normalised to text; schedules <= 200 calls", "DESIGN.md 4/C15"),
- "C16": (X, "exhaustive enumeration of every finite mapping domain (2^32 codes, 2^16 language codes, 2^16 profile pairs, all u8/u16 raw values) against independent tables",
+ "C16": (X, "exhaustive enumeration of every finite mapping domain (2^32 codes, 2^16 language codes - stand-alone and through whole files of 6 major brands, 2^16 profile pairs, all u8/u16 raw values) against independent tables",
          "Each mapping is evaluated on its complete domain and compared with tables written in the harness from the specifications; for these domains the check is a decision, not a sample (exhaustive: true). Text form of non-UTF-8 codes and the 2^32 raw values of FixedPointU16/DataType are complete only in the thorough tier.",
          "trusts the harness' tables (four-character codes, ISO-639 packing, AAC tables, H.264 profile_idc)", "DESIGN.md 4/C16"),
- "C17": (X, "stateful property-based testing over full argument ranges (incl. invalid), panic/abort oracle in two build profiles, plus C01/C02 oracles on all-Ok histories; call sequences that go on after write_end and after a failed sink call",
+ "C17": (X, "stateful property-based testing over full argument ranges (incl. invalid), panic/abort oracle in two build profiles, plus C01/C02 oracles on all-Ok histories; call sequences that go on after write_end and after a failed sink call; sinks handed over just below / beyond 4 GiB",
          "Every call of every generated history is wrapped in catch_unwind in a wrapping and an overflow-checked build; process death is caught by the supervisor and confirmed in a fresh process. All-Ok representable histories additionally pass the C02 and C01 oracles. Further stages: 1..3 rounds of (write_sample,) write_end after the history's write_end; histories muxed into a sink of which one call fails, the caller continuing - later calls may return anything but must not panic. Bounded search.",
          "typed enum arguments cannot take undeclared values; histories <= 40 ops, <= 100 tracks", "DESIGN.md 4/C17"),
  "C18": (X, "property-based testing: proptest-generated iTunes metadata rendered by an independent encoder; expected-value oracle plus metamorphic relation (unknown items, locale words, 64-bit headers and a decoy meta in moov are no-ops)",
